@@ -47,6 +47,15 @@ pub struct Liar {
     script: Script,
     fuel: std::cell::Cell<u32>,
 }
+/// bit i set = byte i of the most recent liars' data was handed out by some chunk() call
+static EXPOSED: std::sync::atomic::AtomicU32 = std::sync::atomic::AtomicU32::new(0);
+fn expose(from: usize, to: usize) {
+    let mut m = 0u32;
+    for i in from..to {
+        m |= 1 << i;
+    }
+    EXPOSED.fetch_or(m, std::sync::atomic::Ordering::Relaxed);
+}
 impl Liar {
     /// must be called inside the subject window: the data block is then crate-attributed,
     /// exactly sized, with a canary zone behind it (an out-of-bounds read returns 0xA5 bytes)
@@ -96,10 +105,19 @@ impl Buf for Liar {
         let p = self.pos.min(N);
         match self.dev(Meth::Chunk, n) {
             Some(Dev::ChunkEmpty) => &self.data[p..p],
-            Some(Dev::ChunkShort) => &self.data[p..(p + 1).min(N)],
-            Some(Dev::ChunkLong) => &self.data[p..],
+            Some(Dev::ChunkShort) => {
+                expose(p, (p + 1).min(N));
+                &self.data[p..(p + 1).min(N)]
+            }
+            Some(Dev::ChunkLong) => {
+                expose(p, N + TAIL);
+                &self.data[p..]
+            }
             Some(Dev::ChunkPanic) => panic!("liar: chunk panics"),
-            _ => &self.data[p..N],
+            _ => {
+                expose(p, N);
+                &self.data[p..N]
+            }
         }
     }
     fn advance(&mut self, cnt: usize) {
@@ -446,6 +464,29 @@ pub struct Stats {
 }
 
 fn judge(name: &str, what: &str, out: &Out, rep: &mut Report) {
+    // the liar's bytes are position-coded (0x10+i, tail 0x70+i): an output byte of the liar's data that no
+    // chunk() call ever handed out was read out of bounds of the slices the implementation exposed
+    let exposed = EXPOSED.load(std::sync::atomic::Ordering::Relaxed);
+    for &b in out.iter() {
+        let pos = if (0x10..0x10 + N as u8).contains(&b) {
+            Some((b - 0x10) as usize)
+        } else if (0x70..0x70 + TAIL as u8).contains(&b) {
+            Some(N + (b - 0x70) as usize)
+        } else {
+            None
+        };
+        if let Some(pos) = pos {
+            if exposed & (1 << pos) == 0 && name.contains("getters") {
+                rep.violate(
+                    "C17",
+                    &format!("{}:unexposed-byte-in-output", name),
+                    &format!("{} with {}: the result contains byte {:02x} of the implementation's private buffer although no chunk() call ever handed that byte out (read outside the returned slice): {:02x?}", name, what, b, out),
+                    &format!("{{\"engine\":\"liar\",\"entry\":{},\"script\":{}}}", oracle::report::jstr(name), oracle::report::jstr(what)),
+                );
+                break;
+            }
+        }
+    }
     // guard / poison / fresh-fill values must never reach an output
     if let Some(b) = out.iter().find(|&&b| b == oracle::CANARY || b == oracle::FILL_FREED || b == oracle::FILL_NEW) {
         rep.violate(
@@ -464,6 +505,7 @@ fn one(e: &Entry, script: &Script, parity_odd: bool, tracked: bool, rep: &mut Re
         oracle::begin_execution(parity_odd);
     }
     st.execs += 1;
+    EXPOSED.store(0, std::sync::atomic::Ordering::Relaxed);
     let mut out: Out = Vec::with_capacity(256);
     let r = oracle::subject(|| catch_unwind(AssertUnwindSafe(|| (e.run)(script, &mut out))));
     match r {
